@@ -164,7 +164,7 @@ def flat (rs : List (Bytes × Bytes)) : Bytes := (rs.map fun kv => encodeBytes k
 /-- how `encodeHeaders` turns a header field into a (key, value) pair -/
 def hraw (kv : Bytes × List Bytes) : Bytes × Bytes := (lowerAscii kv.1, joinComma kv.2)
 
-theorem headerEntries_eq (hs : Headers) : headerEntries hs = (hs.map hraw).map encE := by
+theorem headerEntries_eq_rt (hs : Headers) : headerEntries hs = (hs.map hraw).map encE := by
   simp only [headerEntries, List.map_map]
   apply List.map_congr_left
   intro ⟨n, vs⟩ _
@@ -681,7 +681,7 @@ theorem resp_decode (e : Exchange) (out : Bytes)
   have hraw_def : raw = (keyStatus, SH.formatInt e.status) :: e.respHeaders.map hraw := rfl
   have he : encodeResponseMap e = encodeMap (raw.map encE) := by
     unfold encodeResponseMap
-    rw [headerEntries_eq]; rfl
+    rw [headerEntries_eq_rt]; rfl
   rw [he] at h
   obtain ⟨rs, hp, hnd, rfl⟩ := encodeMap_raw raw out h
   have hlen2 : (flat rs).length < 2 ^ 63 := by
@@ -746,7 +746,7 @@ theorem req_decode (url : UrlFacts) (e : Exchange) (out : Bytes) (hv3 : e.versio
   have hraw_def : raw = (keyMethod, e.method) :: (ux ++ e.reqHeaders.map hraw) := rfl
   have he : encodeRequestMap e = encodeMap (raw.map encE) := by
     unfold encodeRequestMap
-    rw [headerEntries_eq, hraw_def, hux_def]
+    rw [headerEntries_eq_rt, hraw_def, hux_def]
     by_cases hb1 : e.version = .b1
     · simp only [hb1, if_true]; rfl
     · simp only [hb1, if_false]; rfl
